@@ -14,6 +14,7 @@ acceptance, never another exception).
 from dsim import gen, pipe
 from dsim import refmodel as R
 from dsim.actors import read_all, exc_summary, header_short_reads
+from dsim.actors import STREAM_KINDS
 from dsim.world import World
 
 ID = 'C11'
@@ -309,7 +310,7 @@ def execute(scn, L):
     w = World(scn, L)
     recs, end, exc = read_all(w, data, block_size=scn.get('block_size'),
                               stream=scn.get('stream') if scn.get('stream')
-                              in ('sim', 'bytesio', 'buffered') else 'sim',
+                              in STREAM_KINDS else 'sim',
                               buf=64, actor='R',
                               extras=dict(
                                   {'short_at': header_short_reads(
